@@ -110,6 +110,7 @@ type Conn struct {
 	dlsig     chan struct{} // deadline changed
 	hook      Hook
 	mode      *LinkMode
+	onCall    func(call int, isRead bool)
 }
 
 // Stats of an endpoint, for oracles (I/O indices for fault sweeps, Close observed).
@@ -140,6 +141,12 @@ func (c *Conn) InjectFault(f Fault) {
 // step counts an I/O call and fires due faults. Returns an error to return from the call.
 func (c *Conn) step(isRead bool) error {
 	c.mu.Lock()
+	if cb := c.onCall; cb != nil {
+		n := c.calls + 1
+		c.mu.Unlock()
+		cb(n, isRead) // must not block: start a task for anything that does
+		c.mu.Lock()
+	}
 	c.calls++
 	if isRead {
 		c.reads++
@@ -402,12 +409,16 @@ type Hook func(toDialer bool, chunk []byte) []byte
 func (n *Net) pump(h *half, c *Conn, toDialer bool) {
 	for {
 		h.mu.Lock()
-		for len(h.inflight) == 0 || h.stalled {
+		for {
 			if h.rclosed || h.reset || (h.wclosed && len(h.inflight) == 0) {
 				h.done = true
+				h.inflight = nil
 				h.mu.Unlock()
 				sig(h.rsig)
 				return
+			}
+			if len(h.inflight) > 0 && !h.stalled {
+				break
 			}
 			h.mu.Unlock()
 			<-h.psig // durable; woken by Write / Close
@@ -421,7 +432,7 @@ func (n *Net) pump(h *half, c *Conn, toDialer bool) {
 			simrt.TimeSleep(lat)
 		}
 		h.mu.Lock()
-		if h.rclosed || h.reset || h.stalled {
+		if h.rclosed || h.reset || h.stalled || len(h.inflight) == 0 {
 			h.mu.Unlock()
 			continue
 		}
@@ -547,7 +558,10 @@ func (n *Net) drawChunk(c *Conn, avail int) int {
 		case 0:
 			return avail
 		case 1:
-			return 1
+			if avail <= 256 {
+				return 1
+			}
+			return avail/4 + 1
 		case 2:
 			return (avail + 1) / 2
 		}
@@ -592,6 +606,10 @@ func (n *Net) newPair(from, to *net.TCPAddr) (*Conn, *Conn) {
 
 // SetHook installs an adversary on the connection (both endpoints share it).
 func (c *Conn) SetHook(h Hook) { c.hook = h; c.peer.hook = h }
+
+// SetOnCall registers a callback run at the beginning of every Read/Write call on this
+// endpoint with the call's index (1-based). It must not block.
+func (c *Conn) SetOnCall(f func(call int, isRead bool)) { c.mu.Lock(); c.onCall = f; c.mu.Unlock() }
 
 // SetMode overrides the chunking mode for deliveries TO this endpoint.
 func (c *Conn) SetMode(m LinkMode) { c.mode = &m }
